@@ -1,4 +1,5 @@
 """C13 - A backslash makes the next character literal, everywhere."""
+import re, itertools
 from harness import core, impl, model, gen, xmlsx, stages
 
 TRANSLATORS = ['parser', 'grammar', 'types', 'xml', 'libs']
@@ -84,6 +85,60 @@ def _oracle(args):
         return ('bad', 'text is %r, expected %r' % (got, s), text)
     return ('ok', None, text)
 
+# ---- partial escapes around the num / heading separator ----
+def ref_split(r):
+    """r: what follows the keyword on the line (starts with a space) -> (num, heading | None), by the rule the grammar states, written
+    independently of it: the num runs up to the first place - between two characters, an escape pair counting as one - where blanks, a
+    dash and then either blanks with something after them or the line end follow; an escaped blank or dash is text"""
+    def heading_at(k):
+        m = re.match(r' +-(?: +(?=[^ \n])|$)', r[k:])
+        return None if not m else r[k + m.end():]
+    if heading_at(0) is not None:
+        return None, heading_at(0)
+    k = re.match(r' +', r).end()
+    num = []
+    while k < len(r):
+        h = heading_at(k)
+        if h is not None and num:
+            return ''.join(num), h
+        if r[k] == '\\' and k + 1 < len(r):
+            num.append(r[k + 1]); k += 2
+        else:
+            num.append(r[k]); k += 1
+    return ''.join(num), None
+
+SEP_SHAPES = {'sec': ('SEC%s\n  x\n', 'section'), 'part': ('PART%s\n  SEC 1\n    x\n', 'part'), 'item': ('ITEMS\n  ITEM%s\n    x\n', 'item'),
+              'para': ('SEC 1\n  PARA%s\n    x\n', 'paragraph')}
+def separator_cases():
+    out = []
+    for w1, sep, w2 in itertools.product(['1', '(a)', 'a.b'], [' - ', ' -', '- ', '-', '  - ', ' -  ', ' - - '], ['foo', 'x y', '']):
+        s = w1 + sep + w2
+        idx = list(range(len(w1), len(w1) + len(sep)))
+        for e in [()] + [(i,) for i in idx] + [(i, j) for i in idx for j in idx if i < j]:
+            raw = ''.join(('\\' if i in e else '') + c for i, c in enumerate(s)).rstrip()
+            if not raw.endswith('\\'):
+                out.append(' ' + raw)
+    return sorted(set(out))
+
+def _sep_oracle(args):
+    shape, r = args
+    mk, tag = SEP_SHAPES[shape]
+    text = mk % r
+    try:
+        x = impl.parser().parse_to_xml(text, 'act')
+    except Exception as e:
+        return ('bad', 'conversion raised %s' % impl.exc_kind(e), text)
+    el = x.find('.//' + NS + tag)
+    n, h = (el.find(NS + 'num'), el.find(NS + 'heading')) if el is not None else (None, None)
+    got = (None if n is None else ''.join(n.itertext()), None if h is None else ''.join(h.itertext()))
+    wn, wh = ref_split(r)
+    wh = re.sub(r'\\(.)', r'\1', wh) if wh else None
+    if got != (wn, wh):
+        return ('bad', 'num / heading are %r, the separator rule gives %r' % (got, (wn, wh)), text)
+    if (n is not None and len(n)) or (h is not None and len(h)):
+        return ('bad', 'escaped text became markup inside num / heading', text)
+    return ('ok', None, text)
+
 INNER = ('num-then-heading', 'item-num-then-heading')     # positions that are not at the edge of a line: edge whitespace is payload there
 
 def cases(ctx, n):
@@ -118,6 +173,12 @@ def search(ctx, budget):
             ctx.failures.append(({'stage': 'escape', 'position': c[0], 'string': c[1], 'root': c[2], 'text': r[2]}, r[1]))
         elif sum(c[1].count(k) for k in ('**', '//', '{{', '}}', '__', 'PART', 'ITEM', 'TABLE', '\\')) >= 2:
             ctx.nontrivial((c[0], c[1]))
+    # escapes of single characters of the num / heading separator: an escaped blank or dash is text, the split moves accordingly
+    sj = [(shape, r) for r in separator_cases() for shape in sorted(SEP_SHAPES)]
+    for j, r in zip(sj, impl.pmap(_sep_oracle, sj, chunk=64)):
+        ctx.evaluations += 1; ctx.count('separator_' + r[0])
+        if r[0] == 'bad':
+            ctx.failures.append(({'stage': 'separator', 'shape': j[0], 'line': j[1], 'text': r[2]}, r[1]))
     ctx.sample({'position': cs[0][0], 'string': cs[0][1], 'text': POSITIONS[cs[0][0]][0](esc(cs[0][1]))})
 
 def probe_disagreement(ctx, stage, case):
@@ -134,6 +195,8 @@ def replay(obj):
         print('nothing to replay:', obj.get('broken_obligations')); return 1
     if case.get('stage') == 'escape':
         r = _oracle((case['position'], case['string'], case['root'])); print(r); return 1 if r[0] == 'bad' else 0
+    if case.get('stage') == 'separator':
+        r = _sep_oracle((case['shape'], case['line'])); print(r); return 1 if r[0] == 'bad' else 0
     return 0 if stages.replay_stage(case) else 1
 
 LEVEL_TEXT = ('Proof on the grammar regenerated from akn.peg, for every non-empty string of scalar values without newline, every position and any '
